@@ -351,13 +351,77 @@ func (p *Prog) extractUnitTable(f *ssa.Function) (unitTable, int64, bool) {
 	return tbl, def, ok
 }
 
+// timeoutEmitSite: one `fmt.Sprintf("%d<u>", value)` of the client's timeout encoder with the divisor its value was
+// obtained by.
+type timeoutEmitSite struct {
+	call    *ssa.Call
+	format  string
+	divisor int64
+	hasMin1 bool
+	other   string // an origin of the value that is neither the quotient nor a clamp constant
+}
+
+func (p *Prog) timeoutEncoderFns() []*ssa.Function {
+	fns := []*ssa.Function{p.MustFn("goat.headersFromContext")}
+	if f := p.Fn("goat.encodeGrpcTimeout"); f != nil && f.Blocks != nil {
+		fns = append(fns, f)
+	}
+	return fns
+}
+
+func (p *Prog) timeoutEmitSites() []timeoutEmitSite {
+	e := p.Origins()
+	var out []timeoutEmitSite
+	for _, f := range p.timeoutEncoderFns() {
+		for _, ci := range p.callsTo(f, "fmt.Sprintf", false) {
+			cl := ci.(*ssa.Call)
+			st := timeoutEmitSite{call: cl, divisor: -1}
+			st.format, _ = constString(cl.Call.Args[0])
+			for _, t := range e.Of(cl.Call.Args[1]) {
+				if t.Op != "list" || len(t.Args) != 1 {
+					st.other = t.String()
+					continue
+				}
+				var alts []*Term
+				if t.Args[0].Op == "phi" {
+					alts = t.Args[0].Args
+				} else {
+					alts = []*Term{t.Args[0]}
+				}
+				for _, a := range alts {
+					for a.Op == "conv" && len(a.Args) == 1 {
+						a = a.Args[0]
+					}
+					env := map[string]string{}
+					switch {
+					case Match(a, "binop(/,$T,const($D))", env) || a.Op == "binop" && a.Name == "/" && len(a.Args) == 2 && a.Args[1].Op == "const":
+						var d int64
+						fmt.Sscan(a.Args[1].Name, &d)
+						if st.divisor >= 0 && st.divisor != d {
+							st.other = "two different divisors"
+						}
+						st.divisor = d
+					case a.Op == "const" && a.Name == "1":
+						st.hasMin1 = true
+					case a.Op == "const" && a.Name == "99999999":
+						// saturation clamp of the coarsest unit
+					default:
+						st.other = a.String()
+					}
+				}
+			}
+			out = append(out, st)
+		}
+	}
+	return out
+}
+
 func ruleTimeoutTables(c *Ctx, r1, r2 string) {
 	p := c.p
 	e := p.Origins()
 	hfc := p.MustFn("goat.headersFromContext")
 	// client side
-	var K, format string
-	var divisor int64 = -1
+	var K string
 	allInstrs(hfc, func(i ssa.Instruction) {
 		a, ok := i.(*ssa.Alloc)
 		if !ok || typeKey(a.Type()) != "pb.KeyValue" {
@@ -366,21 +430,8 @@ func ruleTimeoutTables(c *Ctx, r1, r2 string) {
 		for _, s := range p.allocFieldStores(a, "Key") {
 			K, _ = constString(s.Val)
 		}
-		for _, s := range p.allocFieldStores(a, "Value") {
-			if cl, ok := s.Val.(*ssa.Call); ok && calleeName(&cl.Call) == "fmt.Sprintf" {
-				format, _ = constString(cl.Call.Args[0])
-			}
-		}
 	})
-	allInstrs(hfc, func(i ssa.Instruction) {
-		if bo, ok := i.(*ssa.BinOp); ok && bo.Op == token.QUO {
-			if d, isC := constInt(bo.Y); isC {
-				if strings.Contains(e.Of(bo.X).String(), "time.Until") {
-					divisor = d
-				}
-			}
-		}
-	})
+	sites := p.timeoutEmitSites()
 	// server side
 	cfh := p.MustFn("goat.contextFromHeaders")
 	var k string
@@ -404,13 +455,20 @@ func ruleTimeoutTables(c *Ctx, r1, r2 string) {
 		unitFn = pgt
 	}
 	tbl, def, okT := p.extractUnitTable(unitFn)
-	c.inv("timeout_tables", map[string]any{"client_key": K, "client_format": format, "client_divisor_ns": divisor, "server_key": k, "server_units": fmt.Sprint(tbl), "server_default": def})
-	c.check(r1, "key-agreement", K != "" && strings.ToLower(K) == k && lower, fmt.Sprintf("client emits key %q; server matches ToLower(key) == %q (lower-cased: %v)", K, k, lower))
-	u := byte(0)
-	if strings.HasPrefix(format, "%d") && len(format) == 3 {
-		u = format[2]
+	var emitted []string
+	for _, st := range sites {
+		emitted = append(emitted, fmt.Sprintf("%q÷%d", st.format, st.divisor))
 	}
-	c.check(r1, "unit-agreement", u != 0 && tbl[u] != 0 && tbl[u] == divisor, fmt.Sprintf("client formats %q after dividing by %d ns; server reads unit %q as %d ns", format, divisor, string(u), tbl[u]))
+	c.inv("timeout_tables", map[string]any{"client_key": K, "client_emits": emitted, "server_key": k, "server_units": fmt.Sprint(tbl), "server_default": def})
+	c.check(r1, "key-agreement", K != "" && strings.ToLower(K) == k && lower, fmt.Sprintf("client emits key %q; server matches ToLower(key) == %q (lower-cased: %v)", K, k, lower))
+	for _, st := range sites {
+		u := byte(0)
+		if strings.HasPrefix(st.format, "%d") && len(st.format) == 3 {
+			u = st.format[2]
+		}
+		c.check(r1, "unit-agreement:"+st.format, u != 0 && tbl[u] != 0 && tbl[u] == st.divisor && st.other == "", fmt.Sprintf("client formats %q after dividing by %d ns; server reads unit %q as %d ns %s", st.format, st.divisor, string(u), tbl[u], st.other), p.ipos(st.call))
+	}
+	c.floor(r1, "timeout emission sites", len(sites), 1)
 	want := unitTable{'H': 3600e9, 'M': 60e9, 'S': 1e9, 'm': 1e6, 'u': 1e3, 'n': 1}
 	same := okT && len(tbl) == len(want)
 	for kk, v := range want {
@@ -506,44 +564,17 @@ func ruleDeadlineIffDeadline(c *Ctx, rule string) {
 func ruleTimeoutArithmetic(c *Ctx, r4, r5, r6 string) {
 	p := c.p
 	e := p.Origins()
-	hfc := p.MustFn("goat.headersFromContext")
 	// C08.4 floor and minimum
-	for _, ci := range p.callsTo(hfc, "fmt.Sprintf", false) {
-		o := e.Of(ci.Common().Args[1])
-		ok, why := true, o.String()
-		nq := 0
-		for _, t := range o {
-			if t.Op != "list" || len(t.Args) != 1 {
-				ok = false
-				continue
-			}
-			var alts []*Term
-			if t.Args[0].Op == "phi" {
-				alts = t.Args[0].Args
-			} else {
-				alts = []*Term{t.Args[0]}
-			}
-			for _, a := range alts {
-				for a.Op == "conv" && len(a.Args) == 1 {
-					a = a.Args[0]
-				}
-				switch {
-				case Match(a, "binop(/,call(time.Until,_),const(1000000))", nil):
-					nq++
-				case a.Op == "const" && a.Name == "1":
-				default:
-					ok = false
-					why = "emitted value may be " + a.String()
-				}
-			}
-		}
-		c.check(r4, "headersFromContext:emitted-integer", ok && nq > 0, "emitted value is the integer quotient of the remaining time by the unit, or the constant 1: "+why, p.ipos(ci.(ssa.Instruction)))
+	for _, st := range p.timeoutEmitSites() {
+		ok := st.divisor > 0 && st.other == ""
+		c.check(r4, "emitted-integer:"+st.format, ok, fmt.Sprintf("emitted value is the integer quotient of the remaining time by %d ns, or a clamp constant %s", st.divisor, st.other), p.ipos(st.call))
 	}
 	// the constant 1 only under fact ≤ 0
-	allInstrs(hfc, func(i ssa.Instruction) {
+	for _, encf := range p.timeoutEncoderFns() {
+	allInstrs(encf, func(i ssa.Instruction) {
 		if ph, ok := i.(*ssa.Phi); ok && typeKey(ph.Type()) == "int64" {
 			for ei, ed := range ph.Edges {
-				if k, isC := constInt(ed); isC {
+				if k, isC := constInt(ed); isC && k == 1 {
 					pred := ph.Block().Preds[ei]
 					fs := p.Facts(pred.Instrs[len(pred.Instrs)-1])
 					okMin := false
@@ -557,6 +588,7 @@ func ruleTimeoutArithmetic(c *Ctx, r4, r5, r6 string) {
 			}
 		}
 	})
+	}
 	// C08.5 overflow guard
 	pgt := p.MustFn("goat.parseGrpcTimeout")
 	n := 0
@@ -571,8 +603,14 @@ func ruleTimeoutArithmetic(c *Ctx, r4, r5, r6 string) {
 		n++
 		fs := p.Facts(i)
 		bounded := false
+		// the bound must be on the parsed value itself and precede the multiplication: a digit-count bound does
+		// not keep 99999999H inside 64 bits, and a sign test after the product misses wraps past 2^64
+		valPath := ""
+		for _, ci := range p.callsTo(pgt, "strconv.ParseInt", false) {
+			valPath = p.lpath(ci.(*ssa.Call)) + "#0"
+		}
 		for a := range fs {
-			if strings.HasPrefix(a, "cmp") && (strings.Contains(a, "len(p:timeout)") || strings.Contains(a, "#0")) {
+			if strings.HasPrefix(a, "cmp") && valPath != "" && strings.Contains(a, valPath) {
 				bounded = true
 			}
 		}
@@ -617,3 +655,69 @@ func ruleTimeoutArithmetic(c *Ctx, r4, r5, r6 string) {
 }
 
 var _ = types.RecvOnly
+
+// ruleTimeoutWithinGrammar (C08.7): every value the client's encoder formats is known ≤ 99999999 (8 digits) at the
+// emission site — the reader ignores anything longer, so an unbounded millisecond count silently loses the deadline.
+func ruleTimeoutWithinGrammar(c *Ctx, rule string) {
+	p := c.p
+	const maxLit = "const:99999999"
+	bounded := func(v ssa.Value, at ssa.Instruction, fs AtomSet) bool {
+		lp := p.lpath(v)
+		for a := range fs {
+			if a == atom("cmp<=", lp, maxLit) {
+				return true
+			}
+		}
+		return false
+	}
+	sites := p.timeoutEmitSites()
+	for _, st := range sites {
+		// the formatted value: element 0 of the variadic slice
+		var val ssa.Value
+		if sl, ok := st.call.Call.Args[1].(*ssa.Slice); ok {
+			if al, ok := sl.X.(*ssa.Alloc); ok {
+				for _, r := range *al.Referrers() {
+					if ia, ok := r.(*ssa.IndexAddr); ok {
+						for _, u := range *ia.Referrers() {
+							if s, ok := u.(*ssa.Store); ok {
+								val = stripConv(s.Val)
+							}
+						}
+					}
+				}
+			}
+		}
+		ok := false
+		why := "formatted value not identified"
+		if val != nil {
+			fs := p.Facts(st.call)
+			why = "facts at the emission: " + fs.String()
+			if bounded(val, st.call, fs) {
+				ok = true
+			} else if ph, isPhi := val.(*ssa.Phi); isPhi {
+				ok = true
+				for ei, ed := range ph.Edges {
+					if k, isC := constInt(ed); isC {
+						if k > 99999999 {
+							ok = false
+						}
+						continue
+					}
+					pred := ph.Block().Preds[ei]
+					efs := p.Facts(pred.Instrs[len(pred.Instrs)-1]).clone()
+					if ifi, isIf := pred.Instrs[len(pred.Instrs)-1].(*ssa.If); isIf {
+						for _, a := range p.factsOf(pred.Parent()).atomsOf(ifi.Cond, pred.Succs[0] == ph.Block(), map[*ssa.BasicBlock]AtomSet{}, 0) {
+							efs[a] = true
+						}
+					}
+					if !bounded(ed, st.call, efs) {
+						ok = false
+						why = "an incoming value of the formatted variable is not bounded by 99999999: " + efs.String()
+					}
+				}
+			}
+		}
+		c.check(rule, "emitted-value-fits-8-digits:"+st.format, ok, "the value formatted as "+st.format+" is at most 99999999 (the wire grammar's 8 digits; longer values are ignored by the reader): "+why, p.ipos(st.call))
+	}
+	c.floor(rule, "timeout emission sites", len(sites), 1)
+}
